@@ -158,3 +158,15 @@ package archiver
 //@   after Close(ClientWithProxy)#1: closedDirect = closedDirect + ite(arg0 == globalArchiver.Client, 1, 0); closedProxy = closedProxy + ite(arg0 == globalArchiver.ClientWithProxy, 1, 0)
 //@   after Close(globalBucketManager)#1: closedDirect = closedDirect
 //@   ensures [clients-closed] @C03 globalArchiver != nil ==> (globalArchiver.Client != nil ==> closedDirect == 1) && (globalArchiver.ClientWithProxy != nil ==> closedProxy == 1) && globalArchiver.Client == old(globalArchiver.Client) && globalArchiver.ClientWithProxy == old(globalArchiver.ClientWithProxy) // C03: afterwards every WARC file has been closed and renamed to its final name (Zeno side: every WARC client that exists is closed, exactly once)
+
+// The goroutines that read the WARC clients' error channels: the library sends on that channel
+// (unbuffered) while it still holds the client's WaitGroup, so the reader has to stay until the
+// channel is closed by Close() - it returns only then.
+//@ func startWARCWriter$1
+//@   property C03
+//@   requires globalArchiver != nil && globalArchiver.ClientWithProxy != nil
+//@   ensures [reads-until-closed] @C03 closed(old(globalArchiver.ClientWithProxy.ErrChan)) // C03: a stop request returns within bounded time (the reader of the proxied client's error channel leaves only when the channel has been closed; a reader that left earlier would block the library's next error report, and with it Stop, for ever)
+//@ func startWARCWriter$2
+//@   property C03
+//@   requires globalArchiver != nil && globalArchiver.Client != nil
+//@   ensures [reads-until-closed] @C03 closed(old(globalArchiver.Client.ErrChan))
